@@ -298,7 +298,7 @@ def run(pid, tier):
         gen_counts["4 files (generated)"] = len(s4all)
         # a seeded sample of trees, each with ALL its fault assignments
         gks = sorted({group_key(s) for s in s4all})
-        chosen = set(r.sample(gks, min(len(gks), 260)))
+        chosen = set(r.sample(gks, min(len(gks), 150)))
         envs = [(p, e) for p in ("absent", "empty", "stale") for e in (False, True)]
         envof = {gk: envs[i % 6] for i, gk in enumerate(sorted(chosen))}
         for s in s4all:
@@ -309,7 +309,7 @@ def run(pid, tier):
         gen_counts["4 files (run: %d trees x all fault assignments)" % len(chosen)] = len(s4)
     allscn = scns + s3 + s4
     groups = build_groups(allscn, cli_every=(60 if thorough else 120), r=r, families=("lf", "nl"),
-                          main_every=(1 if thorough else 3))
+                          main_every=(2 if thorough else 3))
     by_gid = {g["gid"]: g for g in groups}
     scn_of = {s["sid"]: (g, s) for g in groups for s in g["scenarios"]}
 
